@@ -6,22 +6,22 @@ Q = {
  'C01': "12 seeds × k=1 (all 4 op kinds, paths ≤ 4 over {0,a}, values 1–2 symbolic bytes, version symbolic) on memory store, the empty trie opened with a nil and with an empty non-nil root; 3 seeds × k=1 on layered and persistent stores; 4 seeds × k=2 (insert/delete); root branch with an empty slot × k=2 over a 4-symbol alphabet",
  'C02': "as C01 + independent root oracle after every op; two-history injectivity",
  'C03': "1 pending parent op + 1 op in child 1 (3 seeds incl. the aliasing witness seeds); 1 op in each of two children (seed 4, and the empty parent); 3 ops in one child over short paths; all merge/discard/stale decisions",
- 'C04': "seed + 2 rounds × 1 txn, 1 round × 2 txns, a 3-operation transaction; crash at every point of the last save",
+ 'C04': "seed + 2 rounds × 1 txn, 1 round × 2 txns, a 3-operation transaction, a delete/re-insert/insert transaction; crash at every point of the last save",
  'C05': "as C04 + dead-node records, prune at every version, crash at every point of the prune; one run with the seed saved at a non-zero version",
  'C06': "3 blocks any shape (gaps), 4-chain, commit orders / commit-lookup interleavings, 2 lookups × 5 access paths (query cache, probe block, probe txn, the block's own handle, a txn on it); eviction run at per-key capacity 2",
  'C07': "0–2 forced Sets + 3 free ops over 3 txn caches / 2 block caches / queries; trie-node values with payload mutation",
- 'C08': "1 committer + 1 reader all schedules; + 2 readers ≤ 2 pre-emptions; 2 committers (all schedules the lock admits) and 2 committers + 1 reader ≤ 2 pre-emptions; HB monitor",
+ 'C08': "1 committer + 1 reader all schedules; + 2 readers ≤ 2 pre-emptions; a reader through the committing block's own handle (≤ 2); 2 committers (all schedules the lock admits) and 2 committers + 1 reader ≤ 2 pre-emptions; HB monitor",
  'C09': "pool of 3–6 keys, 2–3 free ops after 0–3 forced updates, levels {0,1,2,64}, reload, GC; keys sharing a 3-nibble prefix",
- 'C10': "2–3 keys, 5 shapes (incl. non-zero leading nibbles), 8 tamper kinds at every position, fresh or re-used verifier, prover in memory / committed+collapsed / reopened",
+ 'C10': "1–3 keys, 5 shapes (incl. non-zero leading nibbles), 9 tamper kinds at every position, fresh or re-used verifier, prover in memory / committed+collapsed / reopened",
  'C11': "2–3 keys, optional committed prefix + 3 free ops incl. root reads and GC passes; disciplined windows (commit, GC all-or-none)",
- 'C12': "5 shapes × {1,2,3,4,6,12} keys × request sets × 3 storage modes × 1 follow-up",
+ 'C12': "5 shapes × {1,2,3,4,6,12} keys × request sets × 5 source modes (in memory, reloaded, collapsed, CopyRoot(1/2) views) × 1 follow-up",
  'C13': "2–3 key checkpoint, 1–2 changes of 5 kinds, 3 levels, GC yes/no, both entry points, two GC passes after the rollback; one run with a GC round before the checkpoint and a failing-then-retried GC pass",
  'C14': "codec of all 4 node kinds with symbolic fields; store audit after seed(+version bump)+1 op on 3 stores, change set saved to a second store and re-opened; fresh trie over a layered store on a saved base",
  'C15': "CreateNode on all inputs ≤ 25 bytes, 33-byte branch inputs, structured long families; wmpt node/trie/proof decoders on all target-type values within bounds incl. null elements",
- 'C16': "2 goroutines × 1 op of 6 kinds (change-set reader inspects its records), pre-emption bound 1; 2 concurrent inserts into an empty trie (bound 2); 2 concurrent lookups into absent nodes (bound 2); HB monitor; deadlock detection",
- 'C17': "4 seeds × every subset of removable nodes × same/different version; repair interrupted by a failing write at every node (2 seeds)",
+ 'C16': "2 goroutines × 1 op of 6 kinds (change-set reader inspects its records), pre-emption bound 1; 2 concurrent inserts into an empty trie (bound 2); lookup/insert under absent nodes concurrent with lookup/missing-key read (bound 2); HB monitor; deadlock detection",
+ 'C17': "4 seeds × every subset of removable nodes × same/different version; repair interrupted by a failing write at every node (2 seeds); a two-level store",
  'C18': "all 14 helpers, full-width operands; ParseZCN exponents −14..12",
- 'C19': "n ≤ 24 all indices, other leaf = 64 symbolic bytes; duplicate-leaf variant; re-used tree object; rejected SetTree",
+ 'C19': "n ≤ 24 all indices, other leaf = 64 symbolic bytes; duplicate-leaf variant; re-used tree object; rejected SetTree; earlier path re-verified after another path was handed out",
  'C20': "capacity 4 (overlay), root + ≤ 2 derived cores, 5–6 ops, entries with/without fields; 2 concurrent writers × 3 (wrapping) and 2 writers × 2 + snapshot reader, pre-emption bounded",
 }
 T = {
